@@ -393,7 +393,12 @@ def run_case(ch: Choices, params: dict) -> dict:
                     new, op = h.with_event_hook(NoEventHook()), "with_event_hook(NoEventHook())"
                 else:
                     v = bool(ch.draw(2, "bar"))
-                    new, op = h.with_progress_bar(False), "with_progress_bar(False)"
+                    if v and not real:
+                        # verbose only with the fake back end (real selene would print)
+                        new, op = h.with_verbose(True), "with_verbose(True)"
+                        rec["verbose"] = True
+                    else:
+                        new, op = h.with_progress_bar(False), "with_progress_bar(False)"
                 handles.append(new)
                 records.append(rec)
                 runs_seen.append([])
